@@ -4,6 +4,7 @@ use crate::parse::Tk;
 use crate::polys::*;
 use crate::proto::*;
 use scad_tree::prelude::*;
+use scad_tree::Mt4;
 
 fn run_linear(ps: Vec<Pt2>, h: f64) -> (String, Res) {
     let req = format!("linear_extrude {} {}", tpt2s(&ps), tf(h));
@@ -54,6 +55,18 @@ fn run_xform(pts: Vec<Pt3>, faces: Vec<Vec<u64>>, d: Pt3, deg: f64) -> (String, 
     r.g("rotate_z", tpt3s(&p.points));
     // faces after all of them (they must be untouched)
     p.translate(d);
+    r.g("faces_after", tfaces(&p.faces));
+    (req, r)
+}
+
+/// `Polyhedron::apply_matrix` with a full affine matrix (rotation, scale and translation parts)
+fn run_xformm(pts: Vec<Pt3>, faces: Vec<Vec<u64>>, m: Mt4) -> (String, Res) {
+    let f = Faces::from_faces(faces.iter().map(|x| Indices::from_indices(x.clone())).collect());
+    let req = format!("xformm {} {} {}", tpt3s(&pts), tfaces(&f), tmt4(&m));
+    let mut r = Res::new();
+    let mut p = Polyhedron { points: Pt3s::from_pt3s(pts), faces: f };
+    p.apply_matrix(&m);
+    r.g("apply_matrix", tpt3s(&p.points));
     r.g("faces_after", tfaces(&p.faces));
     (req, r)
 }
@@ -191,7 +204,17 @@ pub fn generate(rng: &mut Rng, thorough: bool, out: &mut Out) {
                 let m = rng.below(12) as usize;
                 let pts: Vec<Pt3> = (0..m).map(|_| Pt3::new(rng.f(), rng.f(), rng.f())).collect();
                 let faces: Vec<Vec<u64>> = (0..rng.below(5)).map(|_| (0..rng.range(3, 5)).map(|_| rng.below(m.max(1) as u64)).collect()).collect();
-                let (q, r) = run_xform(pts, faces, Pt3::new(rng.f(), rng.f(), rng.f()), rng.uniform(-360.0, 360.0));
+                let (q, r) = run_xform(pts.clone(), faces.clone(), Pt3::new(rng.f(), rng.f(), rng.f()), rng.uniform(-360.0, 360.0));
+                out.case(q, r);
+                // a full affine matrix: translation * rotation about a general axis * scale (+ pure translation now and then)
+                let ax = Pt3::new(rng.uniform(-1.0, 1.0), rng.uniform(-1.0, 1.0), rng.uniform(0.1, 1.0)).normalized();
+                let mat = match rng.below(4) {
+                    0 => Mt4::translate_matrix(rng.uniform(-9.0, 9.0), rng.uniform(-9.0, 9.0), rng.uniform(-9.0, 9.0)),
+                    1 => Mt4::translate_matrix(rng.uniform(-9.0, 9.0), rng.uniform(-9.0, 9.0), rng.uniform(-9.0, 9.0)) * Mt4::rot_vec(ax.x, ax.y, ax.z, rng.uniform(-360.0, 360.0)),
+                    2 => Mt4::rot_vec(ax.x, ax.y, ax.z, rng.uniform(-360.0, 360.0)) * Mt4::scale_matrix(rng.uniform(0.5, 2.0), rng.uniform(0.5, 2.0), rng.uniform(0.5, 2.0)),
+                    _ => Mt4::translate_matrix(rng.uniform(-9.0, 9.0), rng.uniform(-9.0, 9.0), rng.uniform(-9.0, 9.0)) * Mt4::rot_vec(ax.x, ax.y, ax.z, rng.uniform(-360.0, 360.0)) * Mt4::scale_matrix(rng.uniform(0.5, 2.0), rng.uniform(0.5, 2.0), rng.uniform(0.5, 2.0)),
+                };
+                let (q, r) = run_xformm(pts, faces, mat);
                 out.case(q, r);
             }
         }
@@ -206,6 +229,12 @@ pub fn replay(toks: &[&str], out: &mut Out) -> bool {
         "cylinder" => run_cylinder(t.f(), t.f(), t.u()),
         "rotate_extrude" => run_revolve(t.pt2s(), t.f(), t.u(), t.b()),
         "sweep" => run_sweep(t.pt2s(), t.pt3s(), t.f(), t.b(), t.b()),
+        "xformm" => {
+            let pts = t.pt3s();
+            let k = t.len();
+            let faces = (0..k).map(|_| t.us()).collect();
+            run_xformm(pts, faces, t.mt4())
+        }
         "xform" => {
             let pts = t.pt3s();
             let k = t.len();
